@@ -943,6 +943,12 @@ fn parent(spec: &CheckSpec, args: &[String]) -> ! {
     let evdir = format!("{}/evidence", vdir);
     let _ = std::fs::create_dir_all(&evdir);
     std::fs::write(format!("{}/{}.json", evdir, spec.id), serde_json::to_vec_pretty(&ev).unwrap()).unwrap_or_else(|e| harness_error(&format!("write evidence: {}", e)));
+    if tier == Tier::Thorough {
+        // keep the last thorough result next to the (re-writable) evidence file as a record
+        let tdir = format!("{}/thorough", evdir);
+        let _ = std::fs::create_dir_all(&tdir);
+        let _ = std::fs::write(format!("{}/{}.json", tdir, spec.id), serde_json::to_vec_pretty(&ev).unwrap());
+    }
     let _ = std::fs::remove_dir_all(&scratch);
     println!(
         "zsim {} done: runs={} distinct_nontrivial={} known_findings={} violations={} determinism={}/{} wall={:.1}s",
